@@ -53,6 +53,13 @@ def dispatch (st : DState) (l : Line) : Option (DState × List String × Option 
   | some "c20" => (DriverC20.handle st.c01 l).map (fun (s, a, n) => ({ st with c01 := s }, a, n))
   | some "c19" => (DriverC19.handle l).map (fun a => (st, a, none))
   | some "c11" => (DriverC11.handle l).map (fun m => (st, [m], none))
+  | some "c07" =>
+    -- array operations are judged by the C01 model, hierarchy queries by the C13 model; a `MISMATCH` outcome
+    -- (the two APIs disagree) never equals a prediction
+    match l.verbs[1]? with
+    | some "hcfg" => some ({ st with c13 := {} }, ["ok"], none)
+    | some "hop" => (DriverC13.handleOp st.c13 { l with verbs := ["c13", "op"] ++ l.verbs.drop 2 }).map (fun (s, a) => ({ st with c13 := s }, a, none))
+    | _ => (DriverC01.handle st.c01 l).map (fun (s, a, n) => ({ st with c01 := s }, a, n))
   | some "c12" => (DriverC12.handle st.c12 l).map (fun (s, a) => ({ st with c12 := s }, a, none))
   | some "c13" => (DriverC13.handle st.c13 l).map (fun (s, a, n) => ({ st with c13 := s }, a, n))
   | some "c14" => (DriverC14.handle l).map (fun a => (st, a, none))
